@@ -35,6 +35,10 @@ def make_mapping(m, ldim, pdim):
         if ldim == pdim:
             return Mapping(m["name"], dim=ldim)
         return Mapping(m["name"], ldim=ldim, pdim=pdim)
+    if m["kind"] == "user":
+        # a user-defined analytical mapping (polynomial coordinate expressions)
+        ex = {"xyz"[i]: m["exprs"][i] for i in range(pdim)}
+        return type("UserMapping", (Mapping,), {"_expressions": ex, "_ldim": ldim, "_pdim": pdim})(m["name"], dim=ldim)
     cls = getattr(am, m["cls"])
     kw = {k: sp.Rational(v[0], v[1]) for k, v in m.get("params", {}).items()}
     if m["cls"] in ("IdentityMapping", "AffineMapping"):
@@ -48,7 +52,15 @@ def build(case):
     maps, patches = [], []
     for p in case["patches"]:
         M = make_mapping(p["mapping"], d, case["pdim"])
-        L = [Line, Square, Cube][d - 1](p["name"])
+        if p.get("bounds"):
+            # a logical patch that is not the unit cube: bounds [[p, q], [p, q]] (rationals) per axis
+            bd = [(float(sp.Rational(*lo)), float(sp.Rational(*hi))) for lo, hi in p["bounds"]]
+            if d == 1:
+                L = Line(p["name"], bounds=bd[0])
+            else:
+                L = [None, Square, Cube][d - 1](p["name"], **{"bounds%d" % (i + 1): bd[i] for i in range(d)})
+        else:
+            L = [Line, Square, Cube][d - 1](p["name"])
         maps.append(M)
         patches.append(M(L))
     if len(patches) == 1:
